@@ -469,7 +469,9 @@ def _fix_closing_tag_spacing(text: str) -> str:
     fixed_lines: list[str] = []
 
     for i, line in enumerate(lines):
-        if _is_closing_tag(line):
+        # Only a closing tag alone on its line is a block-level closing tag (one followed by
+        # text is part of a wrapped paragraph and must stay in it).
+        if _is_closing_tag(line) and _is_tag_only_line(line.strip()):
             stripped = line.lstrip()
             # Only add blank line before closing tag if previous line is block content
             if i > 0 and fixed_lines:
